@@ -63,7 +63,7 @@ def evStep (st : State) (ev : Ev) : State := { st with sys := SdnsVerif.Model.Le
 
 def step (st : State) (w : List String) : State × String :=
   match w with
-  | ["mc", "new"] | ["mnz", "new"] | ["mttl", "new"] | ["nsttl", "new"] | ["lease", "new"] | ["rem", "new"] | ["repl", "new"] | ["dpx", "new"] => (st, "ok")
+  | ["mc", "new"] | ["mnz", "new"] | ["mttl", "new"] | ["nsttl", "new"] | ["lease", "new"] | ["rem", "new"] | ["repl", "new"] | ["dpx", "new"] | ["wr", "new"] => (st, "ok")
   | ["ac", "new"] => ({ st with ac := {}, now := 0 }, "ok")
   | ["ac", "now", t] =>
     match parseI t with
@@ -135,6 +135,17 @@ def step (st : State) (w : List String) : State × String :=
       match replaceIfCurrent (ans hv == ans kind) cut ck with
       | some (c, k) => (st, s!"replaced=t cut={showT c} key={k}")
       | none => (st, "replaced=f none")
+    | _, _ => (st, "bad-op")
+  | ["wr", path, _kind, _ttl, cut, ck, _cap] =>
+    -- every write entry point of the answer cache stores the cut it is handed (`storeCut`);
+    -- neither the kind of answer, nor its TTL, nor an ECS cap, nor who claimed a prefetch matters
+    match parseT cut, ck.toNat? with
+    | some cut, some ck =>
+      if !(["key", "subq", "scoped", "prefetch", "prefetch-ecs"].contains path) then (st, "bad-op") else
+      -- the refresh's cut reaches the worker through a fresh ResponseMeta (zero deadlines are not folded)
+      let m : Meta := if path == "prefetch" || path == "prefetch-ecs" then ({} : Meta).boundCutFor cut ck else ⟨cut, ck⟩
+      let r := storeCut m.cut m.key
+      (st, s!"cut={showT r.1} key={r.2}")
     | _, _ => (st, "bad-op")
   | ["dpx", now, maxTTL, cut, soaTTL, soaMin, nsec] =>
     match parseI now, maxTTL.toInt?, parseT cut, soaTTL.toNat?, soaMin.toNat?, parseList nsec with
